@@ -18,8 +18,9 @@ T = {
             'with dense scalars and the projected operator P^dagger H P.', 'exhaustive configuration enumeration + dense reference', '4/C04'),
     'C05': ('All ordered operator-chain lists (programs) up to the stated bounds are compiled by the real code and compared with an exact '
             'rational path polynomial and with a faithful dense operator map.', 'exhaustive program enumeration + exact symbolic reference', '4/C05'),
-    'C06': ('Every model x every lattice size within dense reach x every parameter triple of the palette compared with an independent '
-            'kron / Jordan-Wigner construction.', 'exhaustive configuration enumeration + dense reference', '4/C06'),
+    'C06': ('Every model x every lattice size within dense reach x every parameter triple of the palette (values, argument types, units) '
+            'compared with an independent kron / Jordan-Wigner construction; every small construction repeated after mutating its first result.',
+            'exhaustive configuration enumeration + dense reference', '4/C06'),
     'C07': ('Every orbital count within reach x both build paths x every one-hot coefficient tensor (complete term alphabet) and generic '
             'tensors compared with a sparse Fock-space reference; every rotated pair for the gauge transform.',
             'exhaustive configuration enumeration + Fock-space reference', '4/C07'),
@@ -51,8 +52,10 @@ T = {
             'exhaustive input enumeration + independent optimum (Hall defect / Kuhn)', '4/C18'),
     'C19': ('Every public operation x operand kind x every follow-up mutation of the result; byte snapshots and memory-sharing graph.',
             'exhaustive enumeration of (operation, operand kind, follow-up mutation) + byte snapshots', '4/C19'),
-    'C20': ('Every model x every lattice size within dense reach: bond dimension vs. operator Schmidt rank; the whole C05 chain-list space '
-            'and the C16 graph space for the inequalities.', 'exhaustive configuration/program enumeration + SVD rank reference', '4/C20'),
+    'C20': ('Every model x every lattice size within dense reach (rank of the documented dense operator) and a list of sizes beyond it '
+            '(rank from an own QR/SVD canonicalisation of the MPO tensors, cross-checked against the dense oracle on every small case): '
+            'bond dimension vs. operator Schmidt rank; the whole C05 chain-list space and the C16 graph space for the inequalities.',
+            'exhaustive configuration/program enumeration + SVD rank reference', '4/C20'),
 }
 
 NOTE = ('Bounded: sizes and alphabets as listed in evidence.coverage.bounds; continuous data values come from a finite palette '
@@ -98,7 +101,7 @@ def main():
         'notes': ('See DESIGN.md (section 9 = as built). KNOWN_FINDINGS.txt: eight defects found by the checks and repaired in /repo (fixed: lines, F1-F8) '
                   'and three deviations that are recorded, not repaired (known: lines): K1/K2 for C09 (projector-splitting integrator) and K3 for '
                   'C14/C15 (absolute Krylov breakdown threshold); C09, C14 and C15 print KNOWN-FINDING lines and exit 0. '
-                  '/verif/seeded/ holds 138 property-breaking changes written by independent sub-agents (five waves), all detected; '
+                  '/verif/seeded/ holds 154 property-breaking changes written by independent sub-agents (six waves), all detected; '
                   'tools/seeded_recheck.py re-runs them against the current checks.'),
     }
     with open(os.path.join(HERE, 'MANIFEST.json'), 'w') as fh:
